@@ -114,14 +114,26 @@ Definition pb_tag (fld wt : N) : N := N.lor (N.shiftl fld 3) wt.
 Definition pb_enc_tag (fld wt : N) : list byte := pb_enc_varint (pb_tag fld wt).
 Definition pb_max_field : N := 536870911.        (* protowire.MaxValidNumber = 2^29 - 1 *)
 
+(* tail-recursive list helpers (the extracted parser runs on megabyte inputs): length as a nat
+   (fuel) and as an N (length prefix), reversal *)
+Fixpoint pb_len_acc (l : list byte) (acc : nat) : nat :=
+  match l with [] => acc | _ :: tl => pb_len_acc tl (S acc) end.
+Definition pb_length (l : list byte) : nat := pb_len_acc l 0.
+Fixpoint pb_nlen_acc (l : list byte) (acc : N) : N :=
+  match l with [] => acc | _ :: tl => pb_nlen_acc tl (N.succ acc) end.
+Definition pb_nlength (l : list byte) : N := pb_nlen_acc l 0.
+Definition pb_rev {A : Type} (l : list A) : list A := rev_append l [].
+(* l ++ m without recursion depth |l|: used where l can be a whole Store message *)
+Definition pb_app (l m : list byte) : list byte := rev_append (pb_rev l) m.
+
 (* length-delimited field *)
 Definition pb_enc_len (fld : N) (payload : list byte) : list byte :=
-  pb_enc_tag fld WT_LEN ++ pb_enc_varint (N.of_nat (length payload)) ++ payload.
+  pb_enc_tag fld WT_LEN ++ pb_enc_varint (pb_nlength payload) ++ payload.
 
 (* the first n bytes and the rest; None when fewer than n bytes are left (never builds a unary n) *)
 Fixpoint pb_take_loop (l : list byte) (n : N) (acc : list byte) : option (list byte * list byte) :=
   match n with
-  | 0 => Some (rev acc, l)
+  | 0 => Some (pb_rev acc, l)
   | _ => match l with
          | [] => None
          | x :: tl => pb_take_loop tl (N.pred n) (x :: acc)
@@ -172,7 +184,7 @@ Fixpoint pb_fields_loop {A : Type} (step : A -> N -> pb_val -> option A) (fuel :
     end
   end.
 Definition pb_fold_fields {A : Type} (step : A -> N -> pb_val -> option A) (bs : list byte) (a : A) : option A :=
-  pb_fields_loop step (length bs) bs a.
+  pb_fields_loop step (pb_length bs) bs a.
 
 (* ================================================================== *)
 (** * (c) the streaming writer (ddsketch.proto_builder.go)             *)
@@ -219,8 +231,8 @@ Definition stream_opt {A : Type} (fld : N) (f : A -> list byte) (o : option A) :
 Definition stream_sketch (s : pb_sketch) : list byte :=
   stream_opt 1 stream_mapping (ps_mapping s)
   ++ (pb_enc_tag 4 WT_I64 ++ pb_enc_double (ps_zero s))
-  ++ stream_opt 3 stream_store (ps_neg s)
-  ++ stream_opt 2 stream_store (ps_pos s).
+  ++ pb_app (stream_opt 3 stream_store (ps_neg s))
+            (stream_opt 2 stream_store (ps_pos s)).
 
 (* ---- proto.Marshal of the generated message types (for the cross-check of the parser against the
    real library): fields by number, repeated doubles packed, zero scalars omitted (a double is
@@ -228,20 +240,20 @@ Definition stream_sketch (s : pb_sketch) : list byte :=
 Definition marshal_double_nz (fld : N) (v : f64) : list byte :=
   if bits_of_f64 v =? 0 then [] else pb_enc_tag fld WT_I64 ++ pb_enc_double v.
 Definition marshal_store (p : pb_store) : list byte :=
-  concat (map (fun kv => pb_enc_len 1 (stream_entry (fst kv) (snd kv))) (bin_counts p))
-  ++ (match contiguous_counts p with
-      | [] => []
-      | _ :: _ => pb_enc_len 2 (concat (map pb_enc_double (contiguous_counts p)))
-      end)
-  ++ (if (contiguous_offset p =? 0)%Z then [] else pb_enc_tag 3 WT_VARINT ++ pb_enc_varint (pb_zigzag (contiguous_offset p))).
+  pb_app (concat (map (fun kv => pb_enc_len 1 (stream_entry (fst kv) (snd kv))) (bin_counts p)))
+  (pb_app (match contiguous_counts p with
+           | [] => []
+           | _ :: _ => pb_enc_len 2 (concat (map pb_enc_double (contiguous_counts p)))
+           end)
+  (if (contiguous_offset p =? 0)%Z then [] else pb_enc_tag 3 WT_VARINT ++ pb_enc_varint (pb_zigzag (contiguous_offset p)))).
 Definition marshal_mapping (m : pb_mapping) : list byte :=
   marshal_double_nz 1 (pm_gamma m) ++ marshal_double_nz 2 (pm_offset m)
   ++ (if pm_interp m =? 0 then [] else pb_enc_tag 3 WT_VARINT ++ pb_enc_varint (pm_interp m)).
 Definition marshal_sketch (s : pb_sketch) : list byte :=
   stream_opt 1 marshal_mapping (ps_mapping s)
-  ++ stream_opt 2 marshal_store (ps_pos s)
-  ++ stream_opt 3 marshal_store (ps_neg s)
-  ++ marshal_double_nz 4 (ps_zero s).
+  ++ pb_app (stream_opt 2 marshal_store (ps_pos s))
+    (pb_app (stream_opt 3 marshal_store (ps_neg s))
+            (marshal_double_nz 4 (ps_zero s))).
 
 (* ================================================================== *)
 (** * (d) parser for the schema                                        *)
@@ -273,13 +285,13 @@ Fixpoint pb_dec_packed_loop (fuel : nat) (bs : list byte) (acc : list f64) : opt
     end
   end.
 Definition pb_dec_packed (bs : list byte) (acc : list f64) : option (list f64) :=
-  pb_dec_packed_loop (length bs) bs acc.
+  pb_dec_packed_loop (pb_length bs) bs acc.
 
 (* Store accumulator: both lists reversed *)
 Record store_acc := { sa_bins : list (Z * f64); sa_counts : list f64; sa_off : Z }.
 Definition store_acc0 : store_acc := {| sa_bins := []; sa_counts := []; sa_off := 0%Z |}.
 Definition store_finish (a : store_acc) : pb_store :=
-  {| bin_counts := rev (sa_bins a); contiguous_counts := rev (sa_counts a); contiguous_offset := sa_off a |}.
+  {| bin_counts := pb_rev (sa_bins a); contiguous_counts := pb_rev (sa_counts a); contiguous_offset := sa_off a |}.
 Definition store_step (a : store_acc) (fld : N) (val : pb_val) : option store_acc :=
   match fld, val with
   | 1, PLen p =>
